@@ -56,6 +56,178 @@ type c02Cfg struct {
 	//  overlay of $: tag (0 none, 1 member p written, 2 whole cell written), rule; then per element of an array root: tag, rule]
 	Lines [][]int `json:"lines"`
 	Exit  bool    `json:"exit"`
+	// selector expressions: per selector the form of its text (absent = "dot": the path $.key), and per
+	// (file, value, selector) what the path $.key selects; Files holds the roots SelRoot(form, member)
+	SForm []string      `json:"sform"`
+	Mems  [][][]c02Root `json:"mems"`
+	// per activation of Lines the value of the program's variable g (-1: never assigned)
+	Gs []int `json:"gs"`
+}
+
+// c02Glob tells whether a configuration reads or writes the program's own variable g.
+func c02Glob(cfg *c02Cfg) bool {
+	for _, r := range cfg.Rules {
+		switch r[1] {
+		case "gv", "ngv", "glt":
+			return true
+		}
+		switch c02W(r) {
+		case "g0", "g1", "ginc":
+			return true
+		}
+	}
+	return false
+}
+
+// c02Forms tells whether some selector is not the plain path $.key.
+func c02Forms(cfg *c02Cfg) bool {
+	for _, f := range cfg.SForm {
+		if f != "dot" {
+			return true
+		}
+	}
+	return false
+}
+
+// c02SelText is the text of a selector expression of the given form over the member key ("" = the whole value).
+func c02SelText(form, key string) string {
+	path := "$." + key
+	if key == "" {
+		path = "$"
+	}
+	switch form {
+	case "dot":
+		return path
+	case "idx":
+		if key == "" {
+			return "$"
+		}
+		return `$["` + key + `"]`
+	case "par":
+		return "(" + path + ")"
+	case "wrap":
+		return "[" + path + "]"
+	case "dup":
+		return "[" + path + ", " + path + "]"
+	case "empty":
+		return "[]"
+	case "ckey":
+		return `["` + key + `"]`
+	case "cnum":
+		return "[0]"
+	case "cnums":
+		return "[1, 2]"
+	case "str":
+		return `"lit"`
+	case "nul":
+		return "null"
+	case "num":
+		return "0"
+	}
+	infra("C02: unknown selector form %q", form)
+	return ""
+}
+
+// c02ApplyForm evaluates a selector expression of the given form on the concrete member it mentions.  It is a
+// transcription of MC_Driver.SelRoot; the shape of its result is compared with the model's root for every vector.
+func c02ApplyForm(form string, mv any, key string) any {
+	switch form {
+	case "dot", "idx", "par":
+		return mv
+	case "wrap":
+		return []any{mv}
+	case "dup":
+		return []any{mv, mv}
+	case "empty":
+		return []any{}
+	case "ckey":
+		return []any{key}
+	case "cnum":
+		return []any{float64(0)}
+	case "cnums":
+		return []any{float64(1), float64(2)}
+	case "str":
+		return "lit"
+	case "nul":
+		return nil
+	case "num":
+		return float64(0)
+	}
+	infra("C02: unknown selector form %q", form)
+	return nil
+}
+
+func c02Truthy(v any) bool {
+	switch t := v.(type) {
+	case nil:
+		return false
+	case bool:
+		return t
+	case float64:
+		return t != 0
+	case string:
+		return t != ""
+	}
+	return true
+}
+
+// c02KindOf classifies a concrete value by MC_Driver.ElemKinds.
+func c02KindOf(v any) string {
+	switch t := v.(type) {
+	case nil:
+		return "nul"
+	case float64:
+		if t == 0 {
+			return "n0"
+		}
+		return "n1"
+	case string:
+		if t == "" {
+			return "s0"
+		}
+		return "s1"
+	case []any:
+		return "ar"
+	case map[string]any:
+		if p, ok := t["p"]; ok && c02Truthy(p) {
+			return "o1"
+		}
+		return "o0"
+	}
+	infra("C02: cannot classify %T", v)
+	return ""
+}
+
+// c02SameShape tells whether a concrete root has the shape of the model's root record.
+func c02SameShape(v any, root c02Root) bool {
+	arr, isArr := v.([]any)
+	if isArr != root.A {
+		return false
+	}
+	if !isArr {
+		return len(root.Es) == 1 && c02KindOf(v) == root.Es[0]
+	}
+	if len(arr) != len(root.Es) {
+		return false
+	}
+	for i := range arr {
+		if c02KindOf(arr[i]) != root.Es[i] {
+			return false
+		}
+	}
+	return true
+}
+
+// fromRoot makes a concrete value of the shape of a root record.
+func (m *c02Mat) fromRoot(root c02Root) any {
+	if root.A {
+		arr := make([]any, 0, len(root.Es))
+		for _, k := range root.Es {
+			arr = append(arr, m.elem(k))
+		}
+		return arr
+	}
+	return m.elem(root.Es[0])
 }
 
 func c02W(rule []string) string {
@@ -233,12 +405,30 @@ func c02Render(cfg *c02Cfg, seed int64, names func(i int) string) *c02Mat {
 			sels[s] = s + 1
 		}
 	}
-	for _, k := range sels {
-		if k == 0 {
-			m.Sels = append(m.Sels, "$")
-		} else {
-			m.Sels = append(m.Sels, "$."+keys[k-1])
+	formOf := func(s int) string {
+		if s < len(cfg.SForm) {
+			return cfg.SForm[s]
 		}
+		return "dot"
+	}
+	keyOf := func(s int) string {
+		if sels[s] == 0 {
+			return ""
+		}
+		return keys[sels[s]-1]
+	}
+	for s := range sels {
+		text := c02SelText(formOf(s), keyOf(s))
+		if c02Forms(cfg) {
+			// blanks around an expression are not part of it
+			switch r.Intn(4) {
+			case 0:
+				text = " " + text
+			case 1:
+				text = text + " "
+			}
+		}
+		m.Sels = append(m.Sels, text)
 	}
 	// inputs
 	m.AllArrays = true
@@ -275,34 +465,38 @@ func c02Render(cfg *c02Cfg, seed int64, names func(i int) string) *c02Mat {
 		}
 		var data bytes.Buffer
 		var fvals [][]any
-		for _, val := range file {
+		for v, val := range file {
 			var roots []any
 			byKey := map[int]any{} // selectors of the same key select the same subtree
 			for s, root := range val {
-				var cv any
+				if !root.A {
+					m.AllArrays = false
+				}
+				mrec := root // what the selector's path selects (the root itself when the selector is a path)
+				if len(cfg.Mems) == len(cfg.Files) {
+					mrec = cfg.Mems[f][v][s]
+				}
+				var mv any
 				if s < len(sels) {
 					if sels[s] == 0 {
-						m.AllArrays = false
-						roots = append(roots, nil) // the whole value: filled in below
+						roots = append(roots, nil) // built from the whole value: filled in below
 						continue
 					}
 					if prev, ok := byKey[sels[s]]; ok {
-						roots = append(roots, prev)
-						continue
+						mv = prev
+					} else {
+						mv = m.fromRoot(mrec)
+						byKey[sels[s]] = mv
 					}
-				}
-				if root.A {
-					arr := make([]any, 0, len(root.Es))
-					for _, k := range root.Es {
-						arr = append(arr, m.elem(k))
-					}
-					cv = arr
 				} else {
-					m.AllArrays = false
-					cv = m.elem(root.Es[0])
+					mv = m.fromRoot(mrec)
 				}
+				cv := mv
 				if s < len(sels) {
-					byKey[sels[s]] = cv
+					cv = c02ApplyForm(formOf(s), mv, keyOf(s))
+				}
+				if !c02SameShape(cv, root) {
+					infra("C02: selector form %q on member %s gives %s, the model's root is %+v", formOf(s), c02JSON(mv), c02JSON(cv), root)
 				}
 				roots = append(roots, cv)
 			}
@@ -329,7 +523,7 @@ func c02Render(cfg *c02Cfg, seed int64, names func(i int) string) *c02Mat {
 				data.WriteString("{" + strings.Join(parts, ", ") + "}")
 				for s := range roots {
 					if s < len(sels) && sels[s] == 0 {
-						roots[s] = doc
+						roots[s] = c02ApplyForm(formOf(s), doc, "")
 					}
 				}
 			}
@@ -355,6 +549,7 @@ func c02Render(cfg *c02Cfg, seed int64, names func(i int) string) *c02Mat {
 		sep = " "
 	}
 	var rules []string
+	glob := c02Glob(cfg)
 	for i, rule := range cfg.Rules {
 		kind, pat, body := rule[0], rule[1], rule[2]
 		label := fmt.Sprintf(`"r%d"`, i+1)
@@ -388,6 +583,12 @@ func c02Render(cfg *c02Cfg, seed int64, names func(i int) string) *c02Mat {
 				if allObjs {
 					head = "!$.p"
 				}
+			case "gv":
+				head = "g"
+			case "ngv":
+				head = "!g"
+			case "glt":
+				head = "g < 2"
 			default:
 				infra("C02: unknown pattern %q", pat)
 			}
@@ -411,6 +612,9 @@ func c02Render(cfg *c02Cfg, seed int64, names func(i int) string) *c02Mat {
 		default:
 			pr = "print " + label + ", $, $file"
 		}
+		if glob {
+			pr += ", g" // the program's own variable, as the activations before left it
+		}
 		ssep := "; "
 		if r.Intn(3) == 0 {
 			ssep = "\n  "
@@ -426,6 +630,12 @@ func c02Render(cfg *c02Cfg, seed int64, names func(i int) string) *c02Mat {
 			wr = []string{"$file = " + wlabel}
 		case "sm":
 			wr = []string{"if ($ is object) $.p = " + wlabel}
+		case "g0":
+			wr = []string{"g = 0"}
+		case "g1":
+			wr = []string{"g = 1"}
+		case "ginc":
+			wr = []string{"g++"}
 		default:
 			infra("C02: unknown write %q", c02W(rule))
 		}
@@ -485,7 +695,8 @@ func c02Overlay(v any, tag, r int) any {
 // c02Expect renders the model's activations to the lines the program must print.
 func c02Expect(cfg *c02Cfg, m *c02Mat) string {
 	var sb strings.Builder
-	for _, ln := range cfg.Lines {
+	glob := c02Glob(cfg)
+	for li, ln := range cfg.Lines {
 		if len(ln) < 8 {
 			infra("C02: bad activation %v", ln)
 		}
@@ -561,6 +772,16 @@ func c02Expect(cfg *c02Cfg, m *c02Mat) string {
 		default:
 			line += " " + dollar + " " + file
 		}
+		if glob {
+			if li >= len(cfg.Gs) {
+				infra("C02: no value of g for activation %d", li)
+			}
+			if cfg.Gs[li] < 0 {
+				line += " " + c02AnyTok // how a variable never assigned prints is not this property's business
+			} else {
+				line += " " + strconv.Itoa(cfg.Gs[li])
+			}
+		}
 		sb.WriteString(line + "\n")
 	}
 	return sb.String()
@@ -602,7 +823,7 @@ type c02Tag struct {
 
 var c02Invariants = []string{"TypeOK", "PartitionLaw", "Ordered", "BeginFirst", "EndLast", "EndDollarNull", "Bindings",
 	"SourceOrderWithinElement", "BodyIffPattern", "NextSkipsRestOfElementOnly", "ExitAbsorbing", "ElementMultiplicity",
-	"DenoteLaw", "ShapeLaw", "PathLaw", "OccurrenceLaw"}
+	"DenoteLaw", "ShapeLaw", "PathLaw", "OccurrenceLaw", "FormLaw", "NoSelLaw", "GlobalPersists"}
 
 // the laws about re-binding; checked where bodies write (without writes they hold trivially)
 var c02CellInvariants = []string{"FreshBindings", "WritesLast"}
@@ -613,7 +834,8 @@ type c02Run struct {
 	sel                                 string // set of indices into MC_Driver.Inputs (family rules)
 	nsel                                string // set of selector counts (families inputs, sim)
 	alpha                               string
-	sim                                 int // > 0: -simulate with this many behaviours per worker
+	sim                                 int    // > 0: -simulate with this many behaviours per worker
+	forms                               string // "all": every form of selector expression (MC_Driver.FormSet); default "dot"
 }
 
 func (r c02Run) cfg() string {
@@ -622,6 +844,10 @@ func (r c02Run) cfg() string {
 		fmt.Sprintf("MaxRules = %d", r.maxRules), fmt.Sprintf("MaxFiles = %d", r.maxFiles),
 		fmt.Sprintf("MaxVals = %d", r.maxVals), fmt.Sprintf("MaxArr = %d", r.maxArr),
 		"InputSel = " + r.sel, "NSel = " + r.nsel}
+	if r.forms == "" {
+		r.forms = "dot"
+	}
+	lines = append(lines, fmt.Sprintf("SelForms = %q", r.forms))
 	for _, inv := range c02Invariants {
 		lines = append(lines, "INVARIANT "+inv)
 	}
@@ -648,7 +874,8 @@ func checkC02(c *Ctx) {
 	c.Assume("next is placed in pattern-rule bodies only (next elsewhere is property C01's business); exit anywhere")
 	c.Assume("printed values are scalars, arrays and objects with at most one key (multi-key objects print in map order: C10); the print format of these is taken from the documented format (C17 owns it)")
 	c.Assume("a rule without a body cannot be written directly before a pattern rule without a pattern (the grammar reads it as that rule's body) nor before a pattern beginning with `!` (read as an operator); such rule lists are outside the domain")
-	c.Assume("selectors are member accesses $.key over an object holding the chosen roots")
+	c.Assume("selectors are expressions over an object holding the chosen members: the paths $.key, $[\"key\"], ($.key), array literals built from a member or from constants, scalar literals (MC_Driver.FormSet), with blanks before or after; the selected root is what the expression evaluates to (README: the argument to -r can be any valid expression)")
+	c.Assume("patterns over the program's own variable g are `g`, `!g`, `g < 2`; a variable never assigned is falsy and smaller than 2 (DESIGN.md 3.1, 3.3), g++ makes it 1 (C05 owns the arithmetic); how it prints before its first assignment is not compared")
 	c.Assume("a path named by several file arguments: all of them are the same string (other spellings of one file are distinct paths here); the file does not change during the run")
 	c.Assume("data-driven patterns are `$` (truthiness of the element, DESIGN.md 3.1) and `$.p`, written `$ is object && $.p` when some element is not an object (member access on non-objects is not part of this property)")
 	pool := c.Pool()
@@ -658,6 +885,10 @@ func checkC02(c *Ctx) {
 	binEvery := 400
 	if c.Thorough() {
 		binEvery = 2000
+	}
+	nForms, formBinEvery := 0, 40 // selector expressions are command-line arguments: a share of them through the binary
+	if c.Thorough() {
+		formBinEvery = 400
 	}
 	binDir := c.TempDir("c02bin")
 	st := pool.NewStream(func(j *Job, r Result) {
@@ -675,7 +906,12 @@ func checkC02(c *Ctx) {
 		}
 		if !c02Match(tag.Exp, string(r.Stdout)) {
 			name := "schedule"
-			if c02Cells(tag.Cfg) {
+			switch {
+			case c02Forms(tag.Cfg):
+				name = "schedule-selector-forms"
+			case c02Glob(tag.Cfg):
+				name = "schedule-globals"
+			case c02Cells(tag.Cfg):
 				name = "schedule-cells"
 			}
 			c.Violation(name, rep)
@@ -689,7 +925,10 @@ func checkC02(c *Ctx) {
 		// a sample also through the compiled binary: files on disk, -r; every configuration that names a path
 		// more than once (that is a matter of the command line: the library gets one reader per argument)
 		repeated := c02Repeats(tag.Cfg)
-		if nA%binEvery == 3 || repeated {
+		if c02Forms(tag.Cfg) {
+			nForms++
+		}
+		if nA%binEvery == 3 || repeated || (c02Forms(tag.Cfg) && nForms%formBinEvery == 1) {
 			nBin++
 			dir := filepath.Join(binDir, strconv.Itoa(nBin))
 			os.MkdirAll(dir, 0o755)
@@ -757,7 +996,12 @@ func checkC02(c *Ctx) {
 			{fam: "sim", alpha: "full", maxRules: 6, maxFiles: 3, maxVals: 3, maxArr: 3, sel: "{}", nsel: "{0, 1, 2}", sim: 200},
 			{fam: "cells", alpha: "cells", maxRules: 2, sel: all, nsel: "{0}"},
 			{fam: "sim", alpha: "cells", maxRules: 6, maxFiles: 3, maxVals: 3, maxArr: 3, sel: "{}", nsel: "{0, 1, 2}", sim: 100},
+			{fam: "rules", alpha: "glob", maxRules: 2, sel: "{1, 6}", nsel: "{0}"},
+			{fam: "inputs", alpha: "full", maxFiles: 1, maxVals: 2, sel: "{}", nsel: "{1}", forms: "all"},
+			{fam: "sim", alpha: "glob", maxRules: 6, maxFiles: 3, maxVals: 3, maxArr: 3, sel: "{}", nsel: "{0, 1, 2}", sim: 100, forms: "all"},
 		}
+		bounds["globals"] = "all lists <= 2 of rules over the program's variable g (31 symbols: patterns `g`, `!g`, `g < 2`, bodies g = 0, g = 1, g++ after the print, in every rule kind) x fixed inputs 1 and 6; 8 x 100 random behaviours with such rules"
+		bounds["selector_forms"] = "12 forms of selector expression (paths $.k, $[\"k\"], ($.k); array literals [$.k], [$.k, $.k], [], [\"k\"], [0], [1, 2]; scalar literals) x 6 member shapes: one selector, one file of <= 2 values, x 2 rule lists; the 8 x 100 random behaviours of `globals` have 0..2 selectors of random forms"
 		bounds["cells"] = "all lists <= 2 of writing rules (34 symbols: $ = v, $.p = v, $file = v after the print; BEGINFILE / ENDFILE without a body) x 6 fixed inputs (several values per file; selectors selecting the same subtree twice, a subtree and the whole value); 8 x 100 random behaviours with writing rules and such selector lists"
 		bounds["rules"] = "all rule lists <= 2 over the 30-symbol alphabet x 6 fixed inputs, <= 3 x fixed input " + big + ", <= 4 over the 8-symbol core alphabet x input 6"
 		bounds["inputs"] = "file arguments <= 2, values per file <= 1, nsel 0..2, and file arguments <= 3 with nsel 0; every argument names a new path or one given before (a a, a b a, a a b, a b b, a a a); 6 root shapes x 6 fixed rule lists"
@@ -774,7 +1018,15 @@ func checkC02(c *Ctx) {
 			{fam: "cells", alpha: "cells", maxRules: 2, sel: all, nsel: "{0}"},
 			{fam: "cells", alpha: "cells", maxRules: 3, sel: "{3}", nsel: "{0}"},
 			{fam: "sim", alpha: "cells", maxRules: 6, maxFiles: 3, maxVals: 3, maxArr: 3, sel: "{}", nsel: "{0, 1, 2}", sim: 2000},
+			{fam: "rules", alpha: "glob", maxRules: 2, sel: all, nsel: "{0}"},
+			{fam: "rules", alpha: "glob", maxRules: 3, sel: "{6}", nsel: "{0}"},
+			{fam: "sim", alpha: "glob", maxRules: 6, maxFiles: 3, maxVals: 3, maxArr: 3, sel: "{}", nsel: "{0, 1, 2}", sim: 2000},
+			{fam: "inputs", alpha: "full", maxFiles: 2, maxVals: 2, sel: "{}", nsel: "{1}", forms: "all"},
+			{fam: "inputs", alpha: "full", maxFiles: 1, maxVals: 1, sel: "{}", nsel: "{2}", forms: "all"},
+			{fam: "sim", alpha: "full", maxRules: 6, maxFiles: 3, maxVals: 3, maxArr: 3, sel: "{}", nsel: "{1, 2}", sim: 2000, forms: "all"},
 		}
+		bounds["globals"] = "all lists <= 2 of rules over the program's variable g (31 symbols: patterns `g`, `!g`, `g < 2`, bodies g = 0, g = 1, g++ after the print, in every rule kind) x 6 fixed inputs, <= 3 x input 6; 8 x 2000 random behaviours with such rules"
+		bounds["selector_forms"] = "12 forms of selector expression (paths $.k, $[\"k\"], ($.k); array literals [$.k], [$.k, $.k], [], [\"k\"], [0], [1, 2]; scalar literals) x 6 member shapes: one selector with <= 2 file arguments of <= 2 values, every pair of forms (the same member or two) with one file of <= 1 value, x 2 rule lists; 8 x 2000 random behaviours with 1..2 selectors of random forms"
 		bounds["cells"] = "all lists <= 2 of writing rules (34 symbols: $ = v, $.p = v, $file = v after the print; BEGINFILE / ENDFILE without a body) x 6 fixed inputs (several values per file; selectors selecting the same subtree twice, a subtree and the whole value), <= 3 x input 3; 8 x 2000 random behaviours with writing rules and such selector lists"
 		bounds["rules"] = "all rule lists <= 3 over the 30-symbol alphabet x 6 fixed inputs; <= 5 over the 8-symbol core alphabet x input 6, <= 4 x inputs 1..3"
 		bounds["inputs"] = "file arguments <= 2, values per file <= 2 (nsel 0, 1) / <= 1 (nsel 2), and file arguments <= 3 with one value and nsel 0, 1; every argument names a new path or one given before; 6 root shapes x 6 fixed rule lists"
@@ -797,7 +1049,11 @@ func checkC02(c *Ctx) {
 		}()
 	}
 	if parts == "" || strings.Contains(parts, "A") {
+		only := os.Getenv("C02_ONLY") // development switch: "glob" or "forms": those families alone
 		for _, r := range runs {
+			if (only == "glob" && r.alpha != "glob") || (only == "forms" && r.forms != "all") || (only == "old" && (r.alpha == "glob" || r.forms == "all")) {
+				continue
+			}
 			runA(r)
 		}
 		st.Wait()
